@@ -19,8 +19,8 @@ MAP = [
     ("protocol/thrift/bufferreader.go", ["C01", "C02", "C08", "C17", "C16", "C12"]),
     ("protocol/thrift/bufferwriter.go", ["C01", "C12"]),
     ("protocol/thrift/skipdecoder", ["C02", "C08", "C09", "C17", "C03"]),
-    ("protocol/thrift/exception.go", ["C18", "C11", "C12"]),
-    ("protocol/thrift/fastcodec.go", ["C12", "C11"]),
+    ("protocol/thrift/exception.go", ["C18", "C17", "C11", "C12"]),
+    ("protocol/thrift/fastcodec.go", ["C12", "C15", "C11"]),
     ("protocol/thrift/base/k-base.go", ["C11", "C15", "C03"]),
     ("protocol/thrift/unknownfields/", ["C13", "C03"]),
     ("protocol/thrift/apache/", ["C19"]),
